@@ -617,3 +617,111 @@ pub fn replay_run(args: &Args) {
         }
     }
 }
+
+/// C08, two consecutive iterations from an injected state with exact (rational) discount factors
+pub fn gen_step2(args: &Args) {
+    let seed = args.num("seed", 1);
+    let n = args.num("n", 100);
+    let mut out = Out::create(args.get("out"));
+    let mut rng = Rng::new(seed ^ 0xc082);
+    let regs = [(-2, 1), (-1, 1), (0, 1), (1, 2), (1, 1), (3, 1)];
+    let strs = [(0, 1), (1, 2), (1, 1), (2, 1)];
+    for id in 1..=n {
+        let mut r = rng.fork();
+        let mut t = tree::gen_tree(&mut r, &small_cfg(id));
+        tree::shorten(&mut t);
+        label_chance(&mut t);
+        let meth = METHODS[(id % 3) as usize];
+        let it = 1 + (id / 3) % 3;
+        let par = gen_rational_params(&mut r, 3);
+        let mut state = Vec::new();
+        for pl in 1..=2u8 {
+            let mut infos = BTreeMap::new();
+            t.infos(pl, &mut infos);
+            let mut m = serde_json::Map::new();
+            for (name, acts) in infos.iter() {
+                let k = acts.len();
+                let rv: Vec<(i64, i64)> = (0..k).map(|_| *r.pick(&regs)).collect();
+                let sv: Vec<(i64, i64)> = (0..k).map(|_| *r.pick(&strs)).collect();
+                let mut parts = vec![0i64; k];
+                for _ in 0..4 {
+                    parts[r.below(k as u64) as usize] += 1;
+                }
+                let cur: Vec<(i64, i64)> = parts.iter().map(|p| (*p, 4)).collect();
+                m.insert(name.clone(), json!({"r": rv, "s": sv, "cur": cur}));
+            }
+            state.push(Value::Object(m));
+        }
+        let draws = vec![gen_draws(&mut r, &t), gen_draws(&mut r, &t)];
+        out.line(&json!({"id": id, "tree": t, "method": meth, "par": par, "t": it, "state": state, "draws": draws}));
+    }
+}
+
+pub fn replay_step2(args: &Args) {
+    let cases = util::read_ndjson(args.get("cases"));
+    let exps = util::read_ndjson(args.get("exp"));
+    let mut out = Out::create(args.get("out"));
+    let by_id: HashMap<i64, &Value> = exps.iter().map(|e| (e["id"].as_i64().unwrap(), &e["exp"])).collect();
+    let tol = 1e-10;
+    for case in cases.iter() {
+        let id = case["id"].as_i64().unwrap();
+        let Some(exp) = by_id.get(&id) else {
+            out.line(&json!({"id": id, "status": "noexp"}));
+            continue;
+        };
+        let status = exp["status"].as_str().unwrap();
+        if status != "ok" || exp["tie"].as_bool() != Some(false) {
+            out.line(&json!({"id": id, "status": if status != "ok" { status } else { "tie" }}));
+            continue;
+        }
+        let t: Tree = serde_json::from_value(case["tree"].clone()).unwrap();
+        let mut bad = Vec::new();
+        for threads in [1usize, 2] {
+            let (t2, case2) = (t.clone(), case.clone());
+            let res = util::catch(move || {
+                let game = tree::build(&t2).map_err(|e| format!("from_root: {e:?}"))?;
+                let dump = game.verif_dump();
+                let meth = case2["method"].as_str().unwrap();
+                let it = case2["t"].as_u64().unwrap();
+                verif::reset();
+                verif::set_inject(Some(state_of(&case2["state"], &dump)));
+                verif::set_first_it(it);
+                verif::set_draw_table(Some(draw_table(case2["draws"].as_array().unwrap(), meth, &t2, &dump)));
+                verif::set_draw_seed(Some(4242));
+                let res = game.solve(method(meth), it + 1, 0.0, threads, Some(params(&case2["par"])));
+                let ext = verif::take_extract();
+                verif::reset();
+                let (_, bound) = res.map_err(|e| format!("solve: {e:?}"))?;
+                Ok::<_, String>((dump, ext.ok_or("no state extracted")?, [bound.player_regret_bound(PlayerNum::One), bound.player_regret_bound(PlayerNum::Two)]))
+            })
+            .and_then(|r| r);
+            match res {
+                Err(msg) => bad.push(json!({"class": "panic", "what": "solve failed or panicked", "threads": threads, "observed": msg})),
+                Ok((dump, state, bounds)) => {
+                    for pl in 0..2 {
+                        for (ix, info) in dump.infos[pl].iter().enumerate() {
+                            let e = &exp["state"][pl][&info.infoset];
+                            let got = &state[pl][ix];
+                            for (field, have, want) in [("regret", &got.cum_regret, ratv(&e["r"])), ("average", &got.cum_strat, ratv(&e["s"])), ("strategy", &got.strat, ratv(&e["cur"]))] {
+                                if !vec_close(have, &want, tol) {
+                                    bad.push(json!({"class": format!("two-step:{field}"), "what": "state after two consecutive iterations differs from the documented algorithm",
+                                        "threads": threads, "player": pl + 1, "infoset": info.infoset, "observed": have, "specified": want}));
+                                }
+                            }
+                        }
+                        if !util::close(bounds[pl], util::rat(&exp["bounds"][pl]), tol) {
+                            bad.push(json!({"class": "two-step:bound", "what": "bound after two consecutive iterations differs", "threads": threads,
+                                "player": pl + 1, "observed": bounds[pl], "specified": exp["bounds"][pl]}));
+                        }
+                    }
+                }
+            }
+        }
+        if bad.is_empty() {
+            out.line(&json!({"id": id, "status": "ok", "nontrivial": true}));
+        } else {
+            bad.truncate(6);
+            out.line(&json!({"id": id, "status": "violation", "mismatch": bad}));
+        }
+    }
+}
